@@ -138,8 +138,9 @@ func checkC05(e *Env, r *Report) {
 		r.Fatal = err.Error()
 		return
 	}
-	errorPathProbe(e, r)
-	groupBuildProbe(e, r, f)
+	if recs := append(errorPathProbe(e, r), groupBuildProbe(e, r, f)...); len(recs) > 0 {
+		runDirectivesTrace(e, r, recs, "C05")
+	}
 	r.Coverage["configs"] = len(cfgs)
 	r.Coverage["episodes"] = len(eps)
 	r.Sample(map[string]any{"episode_files": eps[0].Files[:min(3, len(eps[0].Files))], "src": eps[0].Src, "none": eps[0].None})
@@ -151,7 +152,8 @@ func checkC05(e *Env, r *Report) {
 // errorPathProbe: profiles on which a builder fails (a header that names its executable literally,
 // an @{exec_path} that does not resolve). The build may refuse them - then nothing is shipped and
 // nothing is judged - but whatever it does ship must be in the mode that was asked for.
-func errorPathProbe(e *Env, r *Report) {
+func errorPathProbe(e *Env, r *Report) []any {
+	recs := []any{}
 	mk := func(name, header string) string {
 		return "abi <abi/4.0>,\n\ninclude <tunables/global>\n\n" + header + " flags=(attach_disconnected) {\n  include <abstractions/base>\n\n  /etc/x r,\n\n  profile sub flags=(mediate_deleted) {\n    include <abstractions/base>\n\n    /etc/y r,\n\n    include if exists <local/" + name + "_sub>\n  }\n\n  include if exists <local/" + name + ">\n}\n"
 	}
@@ -188,21 +190,22 @@ func errorPathProbe(e *Env, r *Report) {
 						}
 					}
 					n++
-					if has != (mode == "complain") {
-						r.Violate(fmt.Sprintf("C05|errorpath|%s|%s", fn, mode), fmt.Sprintf("a profile the build shipped after a builder failed on it is not in %s mode: %s", mode, strings.TrimSpace(it.Raw)), map[string]any{"file": fn, "mode": mode, "header": it.Raw})
-					}
+					recs = append(recs, map[string]any{"ev": "blocks", "id": fmt.Sprintf("errorpath|%s|%s|%s", fn, it.Name, mode), "what": "a profile the build shipped after a builder failed on it is not in the mode that was asked for",
+						"want": []string{fmt.Sprint(mode == "complain")}, "got": []string{fmt.Sprint(has)}})
 				}
 			}
 			b.Drop()
 		}
 	}
 	r.Coverage["error_path_headers_judged"] = n
+	return recs
 }
 
 // groupBuildProbe: prebuild --file <directory> builds one group on its own. The flags of every block of every
 // profile it writes are those of the same file in the whole build of that configuration (mode and manifests
 // decide, not the way the build was asked for).
-func groupBuildProbe(e *Env, r *Report, f *famBuilders) {
+func groupBuildProbe(e *Env, r *Report, f *famBuilders) []any {
+	recs := []any{}
 	listed := map[string]bool{}
 	for _, n := range readListFile(filepath.Join(f.aug, "dists", "flags", "main.flags")) {
 		listed[n] = true
@@ -262,14 +265,13 @@ func groupBuildProbe(e *Env, r *Report, f *famBuilders) {
 					continue
 				}
 				n++
-				if strings.Join(want, ";") != strings.Join(got, ";") {
-					r.Violate(fmt.Sprintf("C05|groupbuild|%s|%s", fn, mode), fmt.Sprintf("built with --file %s the blocks of %s have other flags than in the whole %s build: %v instead of %v", g, fn, mode, got, want),
-						map[string]any{"file": fn, "mode": mode, "group": g, "got": got, "want": want})
-				}
+				recs = append(recs, map[string]any{"ev": "blocks", "id": fmt.Sprintf("groupbuild|%s|%s", fn, mode), "what": "built on its own (--file " + g + ") the blocks of a profile have other flags than in the whole build of the same configuration",
+					"want": want, "got": got})
 			}
 			gb.Drop()
 		}
 		whole.Drop()
 	}
 	r.Coverage["group_build_files_compared"] = n
+	return recs
 }
